@@ -351,7 +351,19 @@ class Runner(Exec):
         hidden = "__it%d" % ordn
         body = list(s.body)
         # --- set up the hidden counter for `for` loops
-        if mode is not None:
+        opaque = mode is not None and mode[0] == "opaque"
+        if opaque:
+            # iteration over an opaque iterable: any number of iterations, loop variable unconstrained
+            lo, step = z3.IntVal(0), 1
+            hi = ctx.fresh("opaque_len")
+            ctx.assume(st, hi >= 0)
+            st.env[hidden] = mk_int(lo)
+            st.defd[hidden] = z3.BoolVal(True)
+            hi_c = ctx.fresh("hi")
+            lo_c = ctx.fresh("lo")
+            ctx.assume(st, z3.And(hi_c == hi, lo_c == lo))
+            hi, lo = hi_c, lo_c
+        elif mode is not None:
             if mode[0] == "range":
                 _, lo, hi, step = mode
                 st.env[hidden] = mk_int(lo)
@@ -434,6 +446,8 @@ class Runner(Exec):
             body_st = st.fork(guard)
             if mode[0] == "range":
                 self.assign_target(body_st, s.target, mk_int(k), s)
+            elif mode[0] == "opaque":
+                self.assign_target(body_st, s.target, SV("str", ctx.fresh("opaque_item")), s)
             else:
                 self.assign_target(body_st, s.target, self.load_elem(body_st, mode[1], k, s), s)
             body_st.env[hidden] = mk_int(k + step)
@@ -446,7 +460,10 @@ class Runner(Exec):
                 self.run_ghost(e, "%s.body_end" % tag)
                 check_invs(e, "preserve")
         # 4. after the loop
-        if mode is not None and isinstance(s.target, ast.Name):
+        if mode is not None and mode[0] == "opaque" and isinstance(s.target, ast.Name):
+            exit_st.env[s.target.id] = SV("str", ctx.fresh("opaque_item"))
+            exit_st.defd[s.target.id] = ctx.fresh("def_item", z3.BoolSort())
+        elif mode is not None and isinstance(s.target, ast.Name):
             # Python leaves the last value in the loop variable
             k = exit_st.env[hidden].z
             exit_st.env[s.target.id] = mk_int(k - step)
